@@ -2,7 +2,7 @@
    and the SQLite differ they are composed with.  ExtrOcamlBasic only; nat, positive, N, Z stay inductive. *)
 Require Extraction.
 Require Import ExtrOcamlBasic.
-From Atlas Require Import Base.Bytes Diff.Schema Diff.DiffModel Diff.DiffSqlite Sqlite.PlanModel Sqlite.EngineModel Sqlite.InspectModel Sqlite.ConvergeSupported Sqlite.EngineRowsProofs Sqlite.ConvergeSyntactic Sqlite.ConvergeFeature.
+From Atlas Require Import Base.Bytes Diff.Schema Diff.DiffModel Diff.DiffSqlite Sqlite.PlanModel Sqlite.EngineModel Sqlite.InspectModel Sqlite.ConvergeSupported Sqlite.EngineRowsProofs Sqlite.ConvergeSyntactic Sqlite.ConvergeFeature Sqlite.ConvergeExported.
 Extraction Language OCaml.
 Extraction "model.ml" sqlite_schema_diff no_skip schema_of PlanChanges diff_and_plan plan_stmts
-  empty_db exec exec_all exec_count inspect inspect_schema itoa supported db_ok_b desired_ok_b compatible_b forget desired_syntactic_b in_feature_set.
+  empty_db exec exec_all exec_count inspect inspect_schema itoa supported db_ok_b desired_ok_b compatible_b forget desired_syntactic_b in_feature_set nrm stable_b supported_exported.
